@@ -275,7 +275,11 @@ impl PropCheck for C01 {
     }
 
     fn max_shrink_evals(&self) -> u64 {
-        120
+        60
+    }
+
+    fn stop_shard_after_violation(&self) -> bool {
+        true
     }
 
     fn case_json(&self, case: &Case) -> Value {
